@@ -3,7 +3,7 @@ from . import shared as S
 from . import alias_rules as A
 
 META = {
-    'claim_added': 'Also decided: no early exit from the Union member loop; attributes are looked up per declared parameter by name and every present one is judged; Any positions are stripped on every exit; strip_tags re-resolves with constant flags. Round 3: nothing rewrites the composed tree (key order, merge keys) before recognition (R13.7). Round 6 (E14): caches on the code this property is about are invisible - no value that lives in a memo cell (dict / lazily filled attribute / lru_cache) is modified by the code it is handed to, the key of a cell contains every input its value depends on, no mutable parameter default is modified or handed out; given that, the program is analysed as if every lookup missed.',
+    'claim_added': 'Round 10: R13.11 - the set of names that __strip_extra_attributes exempts is the signature\'s parameters, asked by name (a one-shot iterator makes the answer depend on key order). Also decided: no early exit from the Union member loop; attributes are looked up per declared parameter by name and every present one is judged; Any positions are stripped on every exit; strip_tags re-resolves with constant flags. Round 3: nothing rewrites the composed tree (key order, merge keys) before recognition (R13.7). Round 6 (E14): caches on the code this property is about are invisible - no value that lives in a memo cell (dict / lazily filled attribute / lru_cache) is modified by the code it is handed to, the key of a cell contains every input its value depends on, no mutable parameter default is modified or handed out; given that, the program is analysed as if every lookup missed.',
     'level': 'other',
     'technique': 'static: forbidden-read rule for presentation attributes and a sink rule for source marks (messages and new '
                  'nodes only) with positive controls; decision table of the generic-kind predicates; who-reads-__origin__; '
@@ -44,5 +44,8 @@ def run(ctx):
     H_.r16_3_decisions(ctx, 'R13.8')
     from . import round3 as R3c
     R3c.r13_10_tag_collisions(ctx, 'R13.10')
+    # which keys of a class mapping count as extra (and lose the tags below them) is a question asked by name against a fixed set:
+    # a one-shot iterator, or a set that the scan itself shrinks, makes the answer depend on the order of the keys
+    S.r02_2_attrset(ctx, 'R13.11')
     from . import memo_rules as M
     M.memo_sound(ctx, 'R13.M')
